@@ -6,7 +6,8 @@ World: firmware models (checks/_c14_boards.py) on SimSerial: tape-chosen read ch
 reply loss/duplication, line noise.
 
 Families (one per run, chosen by the plan):
-  fast_in   (a)+(b) FAST: switch reports '-L:hh' / '/L:hh' in bursts, optional noise, clean tail
+  fast_in   (a)+(b) FAST: switch reports '-L:hh' / '/L:hh' in bursts and full reports 'SA:0E,<28 hex>' (pushed or queried;
+                    repeating the previous snapshot, the current state or many switches at once), optional noise, clean tail
   fast_flow (c)     FAST: confirmed commands / fire-and-forget commands / send_and_wait_for_response_processed with
                     latency, duplicated and lost confirmations; oracle over the time-stamped port log
   opp       (a)+(b) OPP: polled input and matrix input frames with CRC8, optional noise, clean tail
@@ -19,6 +20,11 @@ Oracles (written from the statement):
                 way (relaxation "may": the statement does not say where resynchronisation has to happen)
   attribution   (OPP) every frame that changes a switch is checksum-valid and is a window of the delivered bytes; a
                 checksum-valid window that MPF accepts is never an alarm, even if noise produced it (1/256)
+  full report   (FAST) right after a well-formed 'SA:' line MPF's switch states equal that snapshot - also when the same
+                snapshot was reported before and single reports changed MPF's state in between; a damaged 'SA:' line
+                changes nothing
+  lenient noise one digit of a number field is replaced by a character lenient parsers swallow (blank, tab, CR/LF, '+',
+                '-', '_'): the frame keeps length and framing but is not well formed and must not change a switch
   last report   after the clean tail (>= 10 valid frames, covering every switch) states == last report per board
   differential  the delivered byte stream of the main run (noise included) is replayed into a second, freshly booted
                 machine frame-aligned and un-split: messages handed to the processors and switch history must be equal
@@ -676,7 +682,7 @@ def _fast_judge(ctx, plan, stream, calls, watch, init, noisy, tag):
     counts = {"must": 0, "may": 0, "mustnot": 0}
     seen_noise = False
     events_since_sa = 0
-    last_sa_bits = None
+    last_sa_bits = [1 if i in plan.get("init_closed", []) else 0 for i in range(112)]     # the boot SA: report
     for line in lines:
         # -- full switch reports -----------------------------------------------------------------------------
         sa_cls, bits = B.fast_classify_sa(line)
